@@ -422,8 +422,10 @@ func refersTo(v ssa.Value, x ssa.Value) bool {
 	return walk(v, 0)
 }
 
-func c01Timer(c *Ctx) {
-	const R = "C01.6"
+func c01Timer(c *Ctx) { timerFold(c, "C01.6", true, true) }
+
+// timerFold: the run-loop timer takes the loss-detection timeout and / or the ACK alarm into account unless hard-blocked.
+func timerFold(c *Ctx, R string, withLoss, withAck bool) {
 	f := c.fn("", "Conn", "maybeResetTimer")
 	blocked := c.fld("", "Conn", "blocked")
 	hard := c.konst("", "blockModeHardBlocked")
@@ -441,7 +443,14 @@ func c01Timer(c *Ctx) {
 	resets := findInstrs(f, isReset)
 	c.Floor(R, "timer.Reset calls in maybeResetTimer", len(resets), 3)
 	hardEdge := EdgeRel(Rel{Op: token.EQL, X: Load(blocked), Y: ConstOf(hard)}, false)
-	for _, m := range []*types.Func{ldt, gat} {
+	var ms []*types.Func
+	if withLoss {
+		ms = append(ms, ldt)
+	}
+	if withAck {
+		ms = append(ms, gat)
+	}
+	for _, m := range ms {
 		mm := m
 		c.cut(R, "fold:"+m.Name()+" consulted before the timer is set", &Cut{Fn: f, Target: isReset, Barrier: CallsTo(mm), Edge: hardEdge},
 			"unless hard-blocked, the timer deadline takes the loss-detection / ACK alarm into account")
@@ -449,7 +458,7 @@ func c01Timer(c *Ctx) {
 	}
 	// and its value can become the deadline: some Reset's deadline φ-closure includes the call result
 	until := c.obj("internal/monotime", "", "Until")
-	for _, m := range []*types.Func{ldt, gat} {
+	for _, m := range ms {
 		okAny := false
 		for _, in := range resets {
 			arg := in.(*ssa.Call).Call.Args[1]
